@@ -68,7 +68,8 @@ def check(prog: Program, tier: str) -> Result:
             "untouched (no rewrite yielded unless the expression is shown effect-free); (R15.5) short-circuit "
             "evaluation of and/or returns the first falsy / first truthy operand value, else the last; (R15.6) calls are evaluated from their "
             "positional arguments only when they have no keywords; inner functions of the evaluator are not called from outside around the "
-            "converting entry (R15.2). Not decided: "
+            "converting entry (R15.2); (R15.7) a callee name is resolved to the builtin only under a test against the names the analysed "
+            "module binds (known finding). Not decided: "
             "the values computed by the Python operations themselves, evaluation cost."),
         rule_text="instances = operator table entries, evaluator call sites and primitive foreign calls, whitelist members, consumer handlers",
     )
